@@ -29,6 +29,12 @@ func universe() []pongo2.Context {
 	a["x"] = "s<&>"
 	a["l"] = []int{3, 1, 2}
 	a["m"] = map[string]interface{}{"k": "v", "F": 1}
+	type namedKey string
+	a["nkm"] = map[namedKey]int{"k": 1, "abc": 2}
+	a["mon"] = map[time.Month]string{time.May: "may"}
+	a["i8s"] = []int8{1, 2}
+	a["strs"] = []string{"b", "a"}
+	a["tm"] = time.Date(2021, 2, 3, 4, 5, 6, 0, time.UTC)
 	var nilIface interface{}
 	var nilMap map[string]int
 	var nilSlice []string
@@ -264,3 +270,155 @@ func init() {
 	commands["c01-worker"] = cmdC01Worker
 	commands["c01-run"] = cmdC01Run
 }
+
+// ---------------------------------------------------------------- C16: positions of parser / execution errors
+
+func offsetOf(src string, line, col int) int {
+	off := 0
+	for l := 1; l < line; l++ {
+		i := strings.IndexByte(src[off:], '\n')
+		if i < 0 {
+			return -1
+		}
+		off += i + 1
+	}
+	off += col - 1
+	if off < 0 || off > len(src) {
+		return -1
+	}
+	return off
+}
+
+// checkErrorPosition returns "" if err's position is consistent with src (the text of the template it names).
+func checkErrorPosition(err *pongo2.Error, src string, compile bool) string {
+	if compile && err.Filename == "" {
+		return "a compile error does not name the template"
+	}
+	if err.Line <= 0 {
+		return ""
+	}
+	off := offsetOf(src, err.Line, err.Column)
+	if off < 0 {
+		return fmt.Sprintf("position %d:%d is outside the source", err.Line, err.Column)
+	}
+	if t := err.Token; t != nil && t.Line == err.Line && t.Col == err.Column {
+		rest := src[off:]
+		switch t.Typ {
+		case pongo2.TokenString:
+			if !(strings.HasPrefix(rest, `"`) || strings.HasPrefix(rest, `'`)) {
+				return fmt.Sprintf("string token %q reported at %d:%d, where the source has %q", t.Val, err.Line, err.Column, firstN(rest, 12))
+			}
+		case pongo2.TokenHTML:
+			if !strings.HasPrefix(rest, firstN(t.Val, 8)) {
+				return fmt.Sprintf("text token reported at %d:%d, where the source has %q", err.Line, err.Column, firstN(rest, 12))
+			}
+		default:
+			if t.TrimWhitespaces && (strings.HasPrefix(rest, "-"+t.Val) || strings.HasPrefix(rest, t.Val+"-")) {
+				break // the delimiter's text in the source carries the '-' that its value does not
+			}
+			if !strings.HasPrefix(rest, t.Val) {
+				return fmt.Sprintf("token %q reported at %d:%d, where the source has %q", t.Val, err.Line, err.Column, firstN(rest, 12))
+			}
+		}
+	}
+	return ""
+}
+
+func firstN(s string, n int) string {
+	if len(s) > n {
+		return s[:n]
+	}
+	return s
+}
+
+func asPongoError(e error) *pongo2.Error {
+	if pe, ok := e.(*pongo2.Error); ok {
+		return pe
+	}
+	return nil
+}
+
+func cmdC16Errors(args []string) {
+	rep := newReport("c16-errors")
+	seen := map[string]bool{}
+	ctxs := universe()
+	prefix := "ab\n\ncd"
+	nerr := 0
+	readVectors(func(raw json.RawMessage) {
+		var v struct {
+			Toks []string `json:"toks"`
+		}
+		if err := json.Unmarshal(raw, &v); err != nil {
+			fatal("bad vector", err)
+		}
+		rep.Vectors++
+		src := tokensToSource(v.Toks)
+		if seen[src] || strings.Contains(src, "/self") {
+			return
+		}
+		seen[src] = true
+		rep.Checked++
+		run := func(s string) (cerr, eerr *pongo2.Error) {
+			set := pongo2.NewSet("c16", newMemLoader("c16", apiFiles))
+			var tpl *pongo2.Template
+			o := protect(func() (string, error) {
+				var e error
+				tpl, e = set.FromString(s)
+				if e != nil {
+					cerr = asPongoError(e)
+				}
+				return "", nil
+			})
+			if o.Panic != "" || tpl == nil {
+				return
+			}
+			protect(func() (string, error) {
+				_, e := tpl.Execute(ctxs[0])
+				if e != nil {
+					eerr = asPongoError(e)
+				}
+				return "", nil
+			})
+			return
+		}
+		cerr, eerr := run(src)
+		key := fmt.Sprintf("diagnostics: template %q", src)
+		det := map[string]interface{}{"src": src, "cmd": "c16-errors"}
+		for _, pe := range []struct {
+			e       *pongo2.Error
+			compile bool
+		}{{cerr, true}, {eerr, false}} {
+			if pe.e == nil {
+				continue
+			}
+			nerr++
+			if pe.e.Filename != "<string>" {
+				continue // the error belongs to another template (include, extends ...): its text is not src
+			}
+			if p := checkErrorPosition(pe.e, src, pe.compile); p != "" {
+				rep.viol(key+": "+p+" ("+firstLine(pe.e.Error())+")", det)
+			}
+		}
+		// shift: the same template behind a prefix of 2 lines and 2 columns
+		if cerr != nil && cerr.Filename == "<string>" && cerr.Line > 0 {
+			c2, _ := run(prefix + src)
+			if c2 != nil && c2.Line > 0 && c2.OrigError.Error() == cerr.OrigError.Error() {
+				wantL, wantC := cerr.Line+2, cerr.Column
+				if cerr.Line == 1 {
+					wantC += 2
+				}
+				if c2.Line != wantL || c2.Column != wantC {
+					rep.viol(key+fmt.Sprintf(": error at %d:%d moves to %d:%d behind a prefix of 2 lines and 2 columns (expected %d:%d)", cerr.Line, cerr.Column, c2.Line, c2.Column, wantL, wantC), det)
+				}
+			}
+		}
+		if rep.Checked%1999 == 1 && cerr != nil {
+			rep.sample(map[string]interface{}{"template": src, "error": firstLine(cerr.Error())})
+		}
+	})
+	rep.Extra["errors_checked"] = nerr
+	rep.Distinct = len(seen)
+	rep.emit()
+}
+
+func init() { commands["c16-errors"] = cmdC16Errors }
